@@ -23,6 +23,11 @@ pub trait BIter: Send + Sync {
     fn next_back(&mut self) -> Option<usize>;
     fn size_hint(&self) -> (usize, Option<usize>);
     fn count_clone(&self) -> usize;
+    /// Results of the std iterator adaptors (default methods unless the type
+    /// overrides them) on clones: last, nth(0), nth(1) then next / next_back,
+    /// nth_back(0), nth_back(1) then next_back, fold (count, sum), rfold
+    /// (first element seen), rev().next()
+    fn adaptors(&self) -> [Option<usize>; 11];
     fn dbg(&self) -> String;
     fn boxed_clone(&self) -> Box<dyn BIter>;
 }
@@ -44,6 +49,24 @@ where
     }
     fn count_clone(&self) -> usize {
         self.0.clone().count()
+    }
+    fn adaptors(&self) -> [Option<usize>; 11] {
+        let last = self.0.clone().last();
+        let nth0 = self.0.clone().nth(0);
+        let mut a = self.0.clone();
+        let nth1 = a.nth(1);
+        let after_nth1 = a.next();
+        let mut a2 = self.0.clone();
+        let _ = a2.nth(1);
+        let back_after_nth1 = a2.next_back();
+        let nb0 = self.0.clone().nth_back(0);
+        let mut b = self.0.clone();
+        let nb1 = b.nth_back(1);
+        let after_nb1 = b.next_back();
+        let (cnt, sum) = self.0.clone().fold((0usize, 0usize), |(c, s), p| (c + 1, s.wrapping_add(p)));
+        let rfirst = self.0.clone().rfold(None, |acc: Option<usize>, p| acc.or(Some(p)));
+        let revn = self.0.clone().rev().next();
+        [last, nth0, nth1, after_nth1, back_after_nth1, nb0, nb1, after_nb1, Some(cnt.wrapping_mul(1_000_003).wrapping_add(sum)), rfirst, revn]
     }
     fn dbg(&self) -> String {
         format!("{:?}", self.0)
@@ -204,6 +227,23 @@ impl BytesModel {
         let cnt = st.it.count_clone();
         if cnt as u64 != remaining as u64 {
             return Some(format!("count() on a clone returned {} but {} matches are still to come", cnt, remaining));
+        }
+        {
+            let rem: &[u32] = &c.positions[st.f as usize..c.positions.len() - st.b as usize];
+            let g = |i: usize| rem.get(i).map(|&p| p as usize);
+            let gb = |i: usize| if i < rem.len() { Some(rem[rem.len() - 1 - i] as usize) } else { None };
+            let sum = rem.iter().fold(0usize, |s, &p| s.wrapping_add(p as usize));
+            // after nth(1) consumed two from the front, the back is rem[len-1] if len >= 3
+            let back_after_nth1 = if rem.len() >= 3 { gb(0) } else { None };
+            // after nth_back(1) consumed two from the back
+            let after_nb1 = if rem.len() >= 3 { gb(2) } else { None };
+            let exp = [gb(0), g(0), g(1), g(2), back_after_nth1, gb(0), gb(1), after_nb1, Some(rem.len().wrapping_mul(1_000_003).wrapping_add(sum)), gb(0), gb(0)];
+            let got = st.it.adaptors();
+            if got != exp {
+                let names = ["last()", "nth(0)", "nth(1)", "next() after nth(1)", "next_back() after nth(1)", "nth_back(0)", "nth_back(1)", "next_back() after nth_back(1)", "fold (count, sum)", "rfold (first seen)", "rev().next()"];
+                let i = (0..11).find(|&i| got[i] != exp[i]).unwrap();
+                return Some(format!("{} on a clone returned {:?}, reference {:?}", names[i], got[i], exp[i]));
+            }
         }
         if remaining == 0 {
             let mut it = st.it.boxed_clone();
